@@ -1,6 +1,8 @@
 package jp
 
 import (
+	"github.com/ohler55/ojg/alt"
+	"github.com/ohler55/ojg/gen"
 	"github.com/ohler55/ojg/internal/vx"
 )
 
@@ -137,10 +139,39 @@ const (
 	sDiv
 	sExists
 	sHas
+	sIn
 	numSOps
 )
 
-var sopNames = [...]string{"==", "!=", "<", ">", "<=", ">=", "&&", "||", "!", "+", "-", "*", "/", "exists", "has"}
+// genKeepNil is alt.Generify that keeps null members (Generify's default
+// options drop them).
+func genKeepNil(v any) any {
+	switch t := v.(type) {
+	case map[string]any:
+		o := gen.Object{}
+		for k, m := range t {
+			g, _ := genKeepNil(m).(gen.Node)
+			o[k] = g
+		}
+		return o
+	case []any:
+		a := make(gen.Array, len(t))
+		for i, m := range t {
+			a[i], _ = genKeepNil(m).(gen.Node)
+		}
+		return a
+	case nil:
+		return nil
+	}
+	return alt.Generify(v)
+}
+
+// the right operand of "in": a list with a number, a string and containers
+func inList() []any {
+	return []any{int64(1), []any{int64(1)}, map[string]any{"x": int64(1)}, "s"}
+}
+
+var sopNames = [...]string{"==", "!=", "<", ">", "<=", ">=", "&&", "||", "!", "+", "-", "*", "/", "exists", "has", "in"}
 
 func mkEquation(op int, l, r *Equation) *Equation {
 	switch op {
@@ -174,6 +205,8 @@ func mkEquation(op int, l, r *Equation) *Equation {
 		return Exists(l, ConstBool(true))
 	case sHas:
 		return Has(l, ConstBool(true))
+	case sIn:
+		return In(l, r)
 	}
 	return nil
 }
@@ -218,6 +251,17 @@ func VerifC12_Ops() {
 	re := Get(A().C("b"))
 	if rconst {
 		re = r.constant()
+	}
+	if op == sIn {
+		// the right operand is a fixed list (as member b, or as a constant)
+		vx.Assume(rk == vkArray)
+		rconst = vx.Choose("inconst", 2) == 1
+		if rconst {
+			re = ConstList(inList())
+			delete(elem, "b")
+		} else {
+			elem["b"] = inList()
+		}
 	}
 	eq := mkEquation(op, le, re)
 	got, pan := evalFilter(eq, elem)
@@ -276,6 +320,26 @@ func VerifC12_Ops() {
 		}
 	case sExists, sHas:
 		vx.Assert("value", got == (lk != vkMissing))
+	case sIn:
+		// membership by value; a container is never equal to anything
+		want := false
+		switch lk {
+		case vkInt:
+			want = l.i == 1
+		case vkString:
+			want = len(l.s) == 1 && l.s[0] == 's'
+		}
+		if lk != vkMissing && lk != vkFloat { // (whether 1.0 is "in" [1] is not stated)
+			vx.Assert("value", got == want)
+		}
+	}
+	// the same element held as gen nodes: total, and the same verdict
+	if vx.Param("GEN", 1) == 1 {
+		ggot, gpan := evalFilter(eq, genKeepNil(elem))
+		vx.Assert("no-panic:gen", !gpan)
+		if !gpan {
+			vx.Assert("gen-agrees", ggot == got)
+		}
 	}
 	// Script.Match(v) equals membership of v in the filter result
 	var m bool
